@@ -5,6 +5,7 @@ package c14
 import (
 	"bytes"
 	"crypto/tls"
+	"crypto/x509"
 	"encoding/json"
 	"fmt"
 	"net"
@@ -30,6 +31,15 @@ import (
 //	                  Ticker: the real ticker at 1 s for 2.3 s) must not put anything but JSON documents
 //	                  on the wire
 //	tls_idleclose     the idleclose scenario over TLS (harness crypto/tls server)
+//	tls_abrupt_close  the collector ends a TLS session without a close_notify: it turns the client away
+//	                  with a fatal alert after the client side of the handshake was done (TLS 1.3: a
+//	                  collector that demands a client certificate, an exporter without one; N even),
+//	                  or it sends bytes that are no TLS record (N odd); either way it then closes the
+//	                  connection. The application is idle; its next SendSet must fail
+//	close_overlap_slow_close  tcp: closing the connection takes 300 ms (hook VerifWrapConn; crypto/tls
+//	                  takes up to 5 s to close a congested connection). A second Close is called N*20 ms
+//	                  after the first; once it has returned, SendSet fails and the collector receives
+//	                  nothing more
 //	dtls_ticker       the real refresh ticker (1 s) over DTLS (harness pion server): within 2.6 s every
 //	                  template is retransmitted at least once, well-formed
 //	refresh_unbuildable  udp: a registered template holds an element whose declared type the library
@@ -60,6 +70,8 @@ func runExtra(c Extra) *ev.Failure {
 		return runJSONRefresh(c)
 	case "tls_idleclose":
 		return runTLSIdleClose(c)
+	case "tls_abrupt_close":
+		return runTLSAbruptClose(c)
 	case "dtls_ticker":
 		return runDTLSTicker(c)
 	case "refresh_unbuildable":
@@ -68,6 +80,8 @@ func runExtra(c Extra) *ev.Failure {
 		return runDefaultRefresh(0)
 	case "close_overlap":
 		return runCloseOverlap(0)
+	case "close_overlap_slow_close":
+		return runCloseOverlapSlowClose(c)
 	case "cumulative_template_set":
 		return runCumulativeTemplates(c)
 	case "refresh_after_outage":
@@ -190,6 +204,72 @@ func runTLSIdleClose(c Extra) *ev.Failure {
 	ds, _ := exph.DataSet(256, templates[0], dataRecs(0, 1, 1), 0)
 	if _, err := ep.SendSet(ds); err == nil {
 		return ev.Failf("over TLS the collector closed the connection %v ago (check interval %v, the application was idle meanwhile) and SendSet still reports success: the message vanishes", 20*interval+300*time.Millisecond, interval)
+	}
+	return nil
+}
+
+// runTLSAbruptClose: a collector-side close that does not read as a clean end of stream on the
+// exporter's side (crypto/tls reports "remote error: tls: ..." or a local record error from then
+// on, never io.EOF).
+func runTLSAbruptClose(c Extra) *ev.Failure {
+	xCerts()
+	cert, err := tls.X509KeyPair(xCert.CertPEM, xCert.KeyPEM)
+	if err != nil {
+		return nil
+	}
+	alert := c.N%2 == 0
+	cfg := &tls.Config{Certificates: []tls.Certificate{cert}, MinVersion: tls.VersionTLS13}
+	if alert {
+		pool := x509.NewCertPool()
+		pool.AppendCertsFromPEM(xCA.CertPEM)
+		cfg.ClientAuth, cfg.ClientCAs = tls.RequireAndVerifyClientCert, pool
+	}
+	ln, err := net.Listen("tcp", "127.0.0.1:0")
+	if err != nil {
+		return nil
+	}
+	defer ln.Close()
+	closed := make(chan struct{})
+	go func() {
+		defer close(closed)
+		raw, err := ln.Accept()
+		if err != nil {
+			return
+		}
+		defer raw.Close()
+		conn := tls.Server(raw, cfg)
+		raw.SetDeadline(time.Now().Add(10 * time.Second))
+		err = conn.Handshake()
+		if alert {
+			// the handshake fails on the missing client certificate: crypto/tls has sent the alert
+			return
+		}
+		if err != nil {
+			return
+		}
+		time.Sleep(time.Duration(c.N%4) * time.Millisecond)
+		raw.Write([]byte("this is not a TLS record, it is what a broken middlebox or a crashing collector may leave behind"))
+	}()
+	interval := time.Duration(1+c.N%5) * time.Millisecond
+	ep, err := exporter.InitExportingProcess(exporter.ExporterInput{CollectorAddress: ln.Addr().String(), CollectorProtocol: "tcp", ObservationDomainID: 14, CheckConnInterval: interval,
+		TLSClientConfig: &exporter.ExporterTLSClientConfig{ServerName: "localhost", CAData: xCA.CertPEM}})
+	if err != nil {
+		return nil // turned away during the handshake already: nothing to check
+	}
+	defer ep.CloseConnToCollector()
+	select {
+	case <-closed:
+	case <-time.After(12 * time.Second):
+		return nil
+	}
+	time.Sleep(20*interval + 300*time.Millisecond)
+	ts, _ := exph.TemplateSet(256, templates[0], 0)
+	if _, err := ep.SendSet(ts); err == nil {
+		how := "sent bytes that are no TLS record"
+		if alert {
+			how = "turned the client away with a fatal alert (no client certificate)"
+		}
+		return ev.Failf("over TLS the collector %s and closed the connection %v ago (check interval %v, the application was idle meanwhile) and SendSet still reports success: the message vanishes", how, 20*interval+300*time.Millisecond, interval)
 	}
 	return nil
 }
@@ -423,6 +503,51 @@ func runCloseOverlap(_ int) *ev.Failure {
 	return nil
 }
 
+// slowCloseConn is a connection whose Close takes a while.
+type slowCloseConn struct {
+	net.Conn
+	d time.Duration
+}
+
+func (c slowCloseConn) Close() error { time.Sleep(c.d); return c.Conn.Close() }
+
+// runCloseOverlapSlowClose: "no byte is written after Close" holds for every Close call that has
+// returned, whichever of two overlapping calls does the work.
+func runCloseOverlapSlowClose(c Extra) *ev.Failure {
+	peer, err := exph.NewPeer("tcp", false)
+	if err != nil {
+		return nil
+	}
+	defer peer.Close()
+	ep, err := exporter.InitExportingProcess(exporter.ExporterInput{CollectorAddress: peer.Addr, CollectorProtocol: "tcp", ObservationDomainID: 52, CheckConnInterval: time.Hour})
+	if err != nil {
+		return ev.Failf("InitExportingProcess: %v", err)
+	}
+	ep.VerifWrapConn(func(nc net.Conn) net.Conn { return slowCloseConn{nc, 300 * time.Millisecond} })
+	ts, _ := exph.TemplateSet(256, templates[0], 0)
+	n0, err := ep.SendSet(ts)
+	if err != nil {
+		return ev.Failf("template: %v", err)
+	}
+	if _, ok := peer.WaitStream(n0, 5*time.Second); !ok {
+		return nil
+	}
+	firstDone := make(chan struct{})
+	go func() { ep.CloseConnToCollector(); close(firstDone) }()
+	time.Sleep(time.Duration(c.N%8) * 20 * time.Millisecond)
+	ep.CloseConnToCollector()
+	// this call has returned: the exporter is closed
+	ds, _ := exph.DataSet(256, templates[0], dataRecs(0, 1, 1), 0)
+	_, sendErr := ep.SendSet(ds)
+	<-firstDone
+	time.Sleep(50 * time.Millisecond)
+	got, _ := peer.WaitStream(0, 0)
+	if sendErr == nil || len(got) > n0 {
+		return ev.Failf("two overlapping CloseConnToCollector calls (the second %d ms after the first; closing the connection takes 300 ms): after the second call had returned, SendSet returned error %v and the collector received %d bytes more: the call returned while the exporter was still open", (c.N%8)*20, sendErr, len(got)-n0)
+	}
+	return nil
+}
+
 // runDefaultRefresh (thorough tier: it takes ten minutes of wall time): TempRefTimeout left at 0
 // means the documented default of 600 s; a template must be retransmitted 600 s (+/- 15 s) after
 // the exporter was created.
@@ -612,6 +737,8 @@ func extraCases(thorough bool) []Extra {
 	}
 	for k := 0; k < n; k++ {
 		out = append(out, Extra{Kind: "tls_idleclose", N: k})
+		out = append(out, Extra{Kind: "tls_abrupt_close", N: k})
+		out = append(out, Extra{Kind: "close_overlap_slow_close", N: k})
 	}
 	return out
 }
